@@ -175,3 +175,225 @@ PLANS["C15"] = {
     "technique": "runtime monitoring: online reference-model oracle, exhaustive small scope + directed duplicates",
     "assumptions": [],
 }
+
+PLANS["C04"] = {
+    "driver": "c04",
+    "rule": ("cases = (a) every vector of length <= 5 over {0..3} and of length <= 4 over {0..7} (one more each in thorough), all five source item types, every index 0..len+2 and every value incl. absent and "
+             "out-of-alphabet ones; (b) widths 1..=16 x lengths {0,1,2,63,64,65,300,5000} x six alphabet shapes (full, single symbol, two symbols sharing low bits, missing values, max exactly 2^(w-1), random) x "
+             "four skews; WMCore map_down/map_down_with/map_up_with compared with the stable sort by reversed bits; distinct = digest of (width, length, alphabet shape, skew, item type, content); "
+             "non-trivial = at least two distinct symbols or length <= 2"),
+    "legs": {
+        "quick": [leg("rel", 16), leg("dbg", 16), leg("miri", 6, "small", of=512, budget=3000)],
+        "thorough": [leg("rel", 16), leg("dbg", 16), leg("rel-nobmi", 16), leg("miri", 12, "small", of=128, budget=20000)],
+    },
+    "require": {"quick": [], "thorough": []},
+    "level_text": ("exploration: wavelet matrices built from exhaustive small vectors and shaped generated vectors are queried through every Vector/Access/VectorIndex method and the core mapping while a plain "
+                   "Vec<u64> model (filters and a stable sort by reversed bits) checks every answer"),
+    "level_note": "trusts the Vec<u64> model; values and indices on long vectors are sampled",
+    "technique": "runtime monitoring: online reference-model oracle, exhaustive small scope + shaped generation",
+    "assumptions": ["alphabets up to 2^16 symbols; lengths up to 5000"],
+}
+
+PLANS["C09"] = {
+    "driver": "c09",
+    "rule": ("cases = (a) empty / single-bit / all-zero / all-one / boundary-length / random bit sequences built as BitVector, SparseVector and RLVector, every query with arguments "
+             "{0,1,len-1,len,len+1,2len,2^63-1,2^63,2^63+1,MAX-1,MAX} and counts likewise, answers compared with the model AND across the three types; (b) every iterator type, partly consumed, then "
+             "nth/nth_back with {0,rem-1,rem,rem+1,2rem,2^63-1,2^63,MAX-1,MAX}; (c) wavelet matrix and core mapping with the same extreme indices/ranks and values incl. absent, 2^width and u64::MAX; "
+             "(d) constructors with widths {0,1,2,31,63,64,65,66,128,MAX-1,MAX}, SparseBuilder::new(u, ones>u), RLBuilder::try_set out of order / overflowing; a panic anywhere is a violation in both "
+             "debug and release builds; distinct = digest of (part, instance)"),
+    "legs": {
+        "quick": [leg("rel", 16), leg("dbg", 16), leg("rel-nobmi", 8), leg("miri", 6, "bv", of=64, budget=3000), leg("miri-wrap", 6, "nth", of=48, budget=3000), leg("miri-wrap", 4, "wm", of=64, budget=3000)],
+        "thorough": [leg("rel", 16), leg("dbg", 16), leg("rel-nobmi", 16), leg("miri", 12, "bv", of=32, budget=20000), leg("miri-wrap", 12, "nth", of=24, budget=20000), leg("miri-wrap", 8, "wm", of=32, budget=20000), leg("miri", 1, "ctor", budget=20000)],
+    },
+    "require": {"quick": [("build", "dbg", "overflow_checks", True), ("build", "rel", "overflow_checks", False)], "thorough": [("build", "dbg", "overflow_checks", True), ("build", "rel", "overflow_checks", False)]},
+    "level_text": ("exploration: every query of every structure is called with the hostile argument set under catch_unwind in builds with and without overflow checks; the outcome must be the documented answer "
+                   "(model extended to all of usize) and identical across the three bitvector types"),
+    "level_note": "trusts the models extended to all of usize; for WMCore values with bits above the width only totality is demanded",
+    "technique": "runtime monitoring: totality oracle (catch_unwind + extended reference model) in debug and release builds, cross-type agreement",
+    "assumptions": [],
+}
+
+PLANS["C10"] = {
+    "driver": "c10",
+    "rule": ("cases = (a) every bit pattern of length <= 6 (plus a multiset over it) x every iterator type (bit / set-bit / unset-bit / run / occurrence / item / owning iterators of all structures) x every starting "
+             "point (iter, select_iter(r), select_zero_iter(r), predecessor(v), successor(v) for every r, v) x EVERY call sequence of length <= L over {next, next_back, nth(0..2), nth_back(0..2), nth(MAX)} "
+             "(forward-only types: the 5 forward calls); (b) random histories of up to 300 calls incl. len and clone on instances with set bits 0..5 words apart; after every call: returned item and len() vs a "
+             "VecDeque model, then the rest is drained and three more calls must return None; distinct = digest of (iterator type, start, call sequence prefix) for random histories, (pattern) for the exhaustive part"),
+    "legs": {
+        "quick": [leg("rel", 16, "exh", weight=3), leg("rel", 16, "rand"), leg("dbg", 16, "rand"), leg("rel-nobmi", 8, "rand"), leg("miri-wrap", 8, "exh", of=127, scale=2, budget=4000)],
+        "thorough": [leg("rel", 16, "exh", weight=3), leg("dbg", 16, "exh", scale=1), leg("rel", 16, "rand"), leg("dbg", 16, "rand"), leg("rel-nobmi", 16, "rand"), leg("miri-wrap", 16, "exh", of=127, scale=2, budget=30000)],
+    },
+    "require": {"quick": [("probe", "one_iter_next_skip", 1), ("probe", "one_iter_nth_skip", 1), ("probe", "one_iter_back_skip", 1)]},
+    "exhaustive": True,
+    "exhaustive_note": "part `exh` enumerates all call sequences up to the stated depth on all bit patterns up to length 6; part `rand` is a sample",
+    "level_text": ("exploration with an exhaustive core: all call histories up to depth L on all small instances for every iterator type and starting point, plus long random histories, each step checked against a "
+                   "double-ended queue of the reference items"),
+    "level_note": "trusts the VecDeque model; histories longer than L are sampled",
+    "technique": "runtime monitoring: history + executable sequential model (deque), exhaustive at small scope",
+    "assumptions": [],
+}
+PLANS["C10"]["require"]["thorough"] = PLANS["C10"]["require"]["quick"]
+
+PLANS["C11"] = {
+    "driver": "c11",
+    "rule": ("cases = every bit sequence of length <= L (and generated sequences up to 20k bits) x all 39 type sequences with 1..3 conversions (From and copy_bit_vec) incl. same-type copies; result must keep "
+             "length and positions and be == and byte-identical to the structure the target's own builder makes; plus route independence: RL builder decompositions (random splits, bit at a time, interleaved "
+             "set_len), raw-vector push vs iterator vs set_bit for the plain type, set/try_set/extend for the sparse type; distinct = digest of the bit sequence; non-trivial = has set and unset bits"),
+    "legs": {
+        "quick": [leg("rel", 16), leg("dbg", 16), leg("miri", 6, "small", of=256, budget=1500)],
+        "thorough": [leg("rel", 16), leg("dbg", 16), leg("rel-nobmi", 8), leg("miri", 12, "small", of=64, budget=10000)],
+    },
+    "require": {"quick": [], "thorough": []},
+    "level_text": "exploration: conversion chains and alternative builder routes are executed on exhaustive small inputs and generated inputs; equality, serialized bytes and position lists are compared with the directly built structure",
+    "level_note": "like is compared with like: BitVector equality includes which supports are enabled, so both sides are built without supports",
+    "technique": "runtime monitoring: differential oracle (route A vs route B) + position-list model",
+    "assumptions": [],
+}
+
+PLANS["C16"] = {
+    "driver": "c16",
+    "rule": ("cases = (a) every call sequence of length <= L over {try_set(v), set(v) for v in 0..=u+1, extend([v,v+1]/[v,v]/[v+1,v]), convert-a-clone} for universes <= 4 x capacities <= 3 x {set, multiset}; "
+             "(b) every sequence of length <= L over {try_set(s in 0..=7, l in 0..=2), set_len(0..=7), convert-a-clone} for the RL builder; (c) random histories of 10..200 calls with ~30% invalid calls, "
+             "universes up to usize::MAX, start+len near usize::MAX; all observables are compared with a small state machine after EVERY call (unchanged across a refusal, exact after an acceptance), "
+             "and the converted vector with the accepted positions; distinct = digest of the call sequence"),
+    "legs": {
+        "quick": [leg("rel", 16, weight=3), leg("dbg", 16, "sparse_rand"), leg("dbg", 16, "rl_rand"), leg("dbg", 16, "rl_exh"), leg("miri", 6, "rl_exh", of=4000, budget=2500), leg("miri", 6, "sparse_exh", of=40000, budget=2500)],
+        "thorough": [leg("rel", 16, weight=3), leg("dbg", 16, "sparse_rand"), leg("dbg", 16, "rl_rand"), leg("dbg", 16, "rl_exh"), leg("miri", 12, "rl_exh", of=40000, budget=15000), leg("miri", 12, "sparse_exh", of=400000, budget=15000)],
+    },
+    "require": {"quick": [], "thorough": []},
+    "exhaustive": True,
+    "exhaustive_note": "parts sparse_exh / rl_exh enumerate every call sequence up to the stated depth over the stated alphabets; the random parts are samples",
+    "level_text": "exploration with an exhaustive core: builder call histories (valid and invalid) run against the real builders while a state machine checks acceptance, every observable and the converted vector",
+    "level_note": "trusts the two small state machines; the documented panic of set()/extend() is treated as the refusal",
+    "technique": "runtime monitoring: history + executable sequential model, observables snapshotted around every call",
+    "assumptions": [],
+}
+
+PLANS["C06"] = {
+    "driver": "c06",
+    "rule": ("cases = values of every Serialize type: u64/usize/(u64,u64), vectors of them, Vec<u8> and String of every length 0..=17 (and page-sized), Option nested to depth 3 incl. None and Some(None), RawVector and "
+             "IntVector for every width 1..=64, BitVector x 8 support subsets, RankSupport, SelectSupport<Identity|Complement>, SparseVector (set and multiset), RLVector (0, 1, 9+ blocks, huge runs), WMCore, WaveletMatrix, "
+             "empty instances; each: bytes == 8*size_in_elements == size_in_bytes, load from a stream continued by a sentinel consumes exactly that many bytes, loaded == original, query digests equal, re-serialization "
+             "identical; streams of 2..8 random structures back to back loaded in sequence; size_by_params over the parameter space; distinct = digest of (type, parameters / bytes)"),
+    "legs": {
+        "quick": [leg("rel", 16), leg("dbg", 16), leg("miri", 6, "basic", of=24, budget=1500), leg("miri", 6, "streams", scale=40, budget=1200)],
+        "thorough": [leg("rel", 16), leg("dbg", 16), leg("rel-nobmi", 8), leg("miri", 12, "basic", of=12, budget=10000), leg("miri", 12, "streams", scale=20, budget=8000)],
+    },
+    "require": {"quick": [], "thorough": []},
+    "level_text": "exploration: every serializable type is round-tripped over generated values with a counting reader and a sentinel, and the loaded copy is compared by ==, by bytes and by query digests",
+    "level_note": "the oracle is the value itself; conformance of the bytes to the format document is C07's subject",
+    "technique": "runtime monitoring: round-trip oracle with byte accounting over generated values and concatenated streams",
+    "assumptions": [],
+}
+
+PLANS["C12"] = {
+    "driver": "c12",
+    "rule": ("cases = (width, buffer size, push sequence, close mode): IntVectorWriter for every width 1..=64 x buffers {0,1,w-1,w,w+1,63,64,65,127,128,129,1000,default} x item counts aimed at the flush boundary "
+             "(exactly full, one over, one under, two buffers, random) x push/extend with all five item types; exhaustive width <= 8 x buffer <= 3 words x 0..=40 pushes; RawVectorWriter with mixed push_bit / "
+             "push_int(w in 0..=64) whose total ends exactly at, one bit over, or straddles the buffer end; close modes {close, close+close, drop, close then drop}; the whole file is compared byte by byte with "
+             "serialize() of the in-memory vector, len() and is_open() checked; distinct = digest of (width, buffer, count, mode)"),
+    "legs": {
+        "quick": [leg("rel", 16), leg("dbg", 16)],
+        "thorough": [leg("rel", 16), leg("dbg", 16), leg("asan", 8, "raw")],
+    },
+    "require": {"quick": [("probe", "flush_safe_carry", 1), ("probe", "flush_safe_exact", 1), ("probe", "flush_final_empty", 1), ("probe", "flush_final_nonempty", 1)]},
+    "level_text": "exploration: writer configurations aimed at every flush regime run against real files; the file left behind is compared byte for byte with the in-memory serialization; flush-regime probes must all fire",
+    "level_note": "file system is the sandbox's tmp directory under /verif/.cache; the oracle is the in-memory vector fed the same pushes",
+    "technique": "runtime monitoring: differential oracle (file vs in-memory serialization) + flush-regime probes",
+    "assumptions": [],
+}
+PLANS["C12"]["require"]["thorough"] = PLANS["C12"]["require"]["quick"]
+
+PLANS["C13"] = {
+    "driver": "c13",
+    "rule": ("cases = files made of 1..9 concatenated values from {Vec<u64>, Vec<(u64,u64)>, Vec<u8>, String, Option<Vec<u64>> Some/None, RawVector, IntVector} incl. empty ones in last position; every structure "
+             "viewed at its own offset with the matching view type (content, map_offset, map_len), views chained through map_offset + map_len must tile the file, 8 offsets outside the file "
+             "(len, len+1, 2len, 2^63-1, 2^63, MAX-2, MAX-1, MAX) x 8 view types must be refused, and every 8-byte truncation of the file x every structure: untouched structures still map, cut ones are refused; "
+             "distinct = digest of the file bytes; non-trivial = at least two structures"),
+    "legs": {
+        "quick": [leg("rel", 16), leg("dbg", 16), leg("asan", 8), leg("valgrind", 4, scale=10)],
+        "thorough": [leg("rel", 16), leg("dbg", 16), leg("asan", 16), leg("valgrind", 8, scale=10), leg("bounds", 8)],
+    },
+    "require": {"quick": [("probe", "mmap_new", 100)], "thorough": [("probe", "mmap_new", 100)]},
+    "level_text": "exploration: real files are mapped with real mmap; every view type is compared with the value that was serialized, at every structure offset, bad offset and truncation point, natively and under AddressSanitizer and memcheck",
+    "level_note": "Miri cannot run file-backed mmap, so the interpreter is not used here",
+    "technique": "runtime monitoring: content oracle over mapped files + offset/truncation sweeps, ASan and valgrind memcheck on the mapped paths",
+    "assumptions": [],
+}
+
+PLANS["C14"] = {
+    "driver": "c14",
+    "level": "fault_enumeration",
+    "rule": ("fault points = for one instance of every Serialize type (30 instances incl. empty ones): every byte prefix 0..size-1 x 3 reader behaviours (slice, 1-byte reads, Interrupted once) must make load return Err; "
+             "every prefix of the instance wrapped as an optional must make skip_option return Err; every write budget 0..size-1 x 3 sink behaviours (Err at budget, short writes then Err, Ok(0)) must make serialize "
+             "return Err with the accepted bytes a prefix of the true serialization; every element truncation of mapped files x every structure cut; one child process per RLIMIT_FSIZE value 0..=size+8 for 6..11 writer "
+             "configurations: close() may report Ok only if the file is complete and identical; distinct = (instance or file or writer configuration)"),
+    "legs": {
+        "quick": [leg("rel", 16), leg("dbg", 16), leg("miri", 6, "load", of=30, budget=2500), leg("miri", 4, "sink", of=30, budget=2500)],
+        "thorough": [leg("rel", 16), leg("dbg", 16), leg("asan", 8, "load"), leg("miri", 12, "load", of=30, budget=15000), leg("miri", 8, "sink", of=30, budget=15000), leg("miri", 4, "skip", of=30, budget=15000)],
+    },
+    "require": {"quick": [("counter", "fault_points.load", 10000), ("counter", "fault_points.sink", 10000), ("counter", "fault_points.skip", 1000), ("counter", "fault_points.maps", 1000),
+                          ("counter", "fault_points.writers", 500), ("counter", "writers.outcome.close_ok", 1), ("counter", "writers.outcome.close_err", 1), ("counter", "writers.outcome.push_panic", 1), ("probe", "skip_option", 100)]},
+    "exhaustive": True,
+    "exhaustive_note": "per instance every truncation point / write budget / file-size limit (step 1 up to 512 bytes, step 8 above) is enumerated; the set of instances is a sample of each type",
+    "level_text": ("fault enumeration: for each instance every fault point of each kind is injected from outside (truncated readers, failing sinks, truncated mapped files, RLIMIT_FSIZE in a child process) and the "
+                   "outcome class (Ok / Err / panic) is checked; success may be reported only for complete, identical data"),
+    "level_note": "faults are injected at the Read/Write/file boundary, not inside the library; one instance per type and parameter class",
+    "technique": "runtime monitoring with fault injection: exhaustive enumeration of truncation points, write budgets and file-size limits per instance",
+    "assumptions": ["SIGXFSZ is ignored in the child so that writes past the limit return EFBIG"],
+}
+PLANS["C14"]["require"]["thorough"] = PLANS["C14"]["require"]["quick"]
+
+PLANS["C18"] = {
+    "driver": "c18",
+    "rule": ("cases = file sizes {0, 8, 16, 24, 4088, 4096, 4104, 8192, 12288, 65536, 65544, 1 MiB+8, 64 MiB sparse, ...} x {ReadOnly, Mutable}: /proc/self/maps lines naming the unique file before new / while alive / "
+             "after drop, mapped slice vs fs::read, pointer printed by Debug, write-through for mutable maps; sizes {1..7, 9, 15, 4097, 4100, 65537} and a missing file must be refused; 6..60 rounds of up to 200 "
+             "map/drop cycles with 1..5 maps of 1..4 files alive at once and random drop order, address space checked after every cycle; a child process with RLIMIT_AS 512 MiB..2 GiB mapping a 4 GiB sparse file must "
+             "get an error; distinct = (size, mode) / (round parameters)"),
+    "legs": {
+        "quick": [leg("rel", 8), leg("dbg", 8), leg("asan", 4, "sizes"), leg("asan", 4, "cycles"), leg("valgrind", 2, "sizes")],
+        "thorough": [leg("rel", 16), leg("dbg", 16), leg("asan", 8, "sizes"), leg("asan", 8, "cycles"), leg("valgrind", 4, "sizes"), leg("valgrind", 4, "cycles", scale=4)],
+    },
+    "require": {"quick": [("counter", "refused.outcome.err", 1), ("probe", "mmap_new", 100), ("probe", "mmap_drop", 100)]},
+    "level_text": "exploration: real files are mapped and dropped while the process's own address space (/proc/self/maps), the file bytes and the map's pointer are observed from outside the library; OS refusal is provoked in a child process",
+    "level_note": "Linux-specific oracle (/proc/self/maps); Miri cannot run mmap",
+    "technique": "runtime monitoring: address-space monitor (/proc/self/maps) + content oracle + RLIMIT_AS fault injection in a subprocess, ASan/valgrind legs",
+    "assumptions": ["temporary file names are unique, so a mapping line naming the file belongs to this map"],
+}
+PLANS["C18"]["require"]["thorough"] = PLANS["C18"]["require"]["quick"]
+
+PLANS["C19"] = {
+    "driver": "c19",
+    "rule": ("cases = plain bitvectors (boundary lengths, random, and vectors with long select superblocks) x 8 support subsets at write time x enable orders x a serialize/load round trip before step 0..3: "
+             "supports_* after load == written subset, enabling is idempotent, the fully enabled result is == and byte-identical to the fully enabled original and answers like the model; sparse vectors whose "
+             "embedded bitvector keeps any subset of its supports, wavelet matrices / cores whose levels carry no / all / random supports (files rewritten by an independent byte walker) must load, be == to the "
+             "original and answer all queries; skip_option over optionals holding every serializable type, plain and nested, must land exactly on the next element; absent_option/absent_option_size; "
+             "distinct = digest of the instance"),
+    "legs": {
+        "quick": [leg("rel", 16), leg("dbg", 16), leg("miri", 6, "subsets", of=24, budget=1500), leg("miri", 4, "composites", of=40, budget=1500)],
+        "thorough": [leg("rel", 16), leg("dbg", 16), leg("rel-nobmi", 8), leg("miri", 12, "subsets", of=24, budget=10000), leg("miri", 8, "composites", of=40, budget=10000)],
+    },
+    "require": {"quick": [("probe", "sel_build_long", 1), ("probe", "skip_option", 10)], "thorough": [("probe", "sel_build_long", 1), ("probe", "skip_option", 10)]},
+    "level_text": "exploration: support-subset x enable-order x round-trip interleavings on generated bitvectors, and composite files rewritten without (or with arbitrary) embedded supports, checked against the fully enabled original and the reference model",
+    "level_note": "the byte walker that strips supports follows SERIALIZATION.md and is cross-checked against a second implementation in the harness",
+    "technique": "runtime monitoring: differential oracle against the fully enabled original + reference model, files rewritten by an independent format walker",
+    "assumptions": [],
+}
+
+PLANS["C20"] = {
+    "driver": "c20",
+    "rule": ("cases = rounds of 2..64 threads x 10..10000 calls each of temp_file_name behind a barrier, with the same or per-thread name parts; every returned path is checked against ALL earlier paths of the process "
+             "and for its name part; the counter embedded in the name orders the calls, so each round yields the linearization actually taken: thread switches are counted and the thread-id sequence is digested; "
+             "distinct = distinct observed interleavings (digest of the thread-id order); non-trivial = at least one thread switch"),
+    "legs": {
+        "quick": [leg("rel", 8), leg("dbg", 4), leg("tsan", 4, scale=4), leg("miri", 8, scale=10, budget=100000, env={"MIRIFLAGS_EXTRA": "-Zmiri-preemption-rate=0.3"}, of=8)],
+        "thorough": [leg("rel", 16), leg("dbg", 16), leg("tsan", 8, scale=2), leg("miri", 16, scale=2, budget=100000, env={"MIRIFLAGS_EXTRA": "-Zmiri-preemption-rate=0.3"}, of=16)],
+    },
+    "require": {"quick": [("counter", "thread_switches_observed", 1000), ("build", "tsan", "miri", False)]},
+    "level_text": ("exploration of schedules: the real function is called from up to 64 threads; uniqueness is checked over every name the process ever returned, natively, under ThreadSanitizer (data-race detector) and under "
+                   "Miri with randomized preemption and one scheduler seed per shard; the evidence reports how many distinct interleavings were observed"),
+    "level_note": "a finite sample of schedules; 'all interleavings' is out of reach for runtime monitoring and the evidence says how many were seen",
+    "technique": "runtime monitoring: uniqueness monitor over unambiguous histories (counter embedded in each name), ThreadSanitizer, Miri with seeded preemption",
+    "assumptions": [],
+}
+PLANS["C20"]["require"]["thorough"] = PLANS["C20"]["require"]["quick"]
